@@ -704,7 +704,10 @@ impl Signed for S {
         fork(Rel::SignPos, *self, zero_s())
     }
     fn is_negative(&self) -> bool {
-        fork(Rel::SignNeg, *self, zero_s())
+        // the sign bit cannot be set and clear at once: for IEEE floats is_negative is the exact
+        // complement of is_positive (num_traits forwards both to the sign bit), so both
+        // observations of one value share one decision
+        !fork(Rel::SignPos, *self, zero_s())
     }
 }
 
@@ -841,7 +844,7 @@ impl Float for S {
         fork(Rel::SignPos, self, zero_s())
     }
     fn is_sign_negative(self) -> bool {
-        fork(Rel::SignNeg, self, zero_s())
+        !fork(Rel::SignPos, self, zero_s())
     }
     fn mul_add(self, a: S, b: S) -> S {
         S::mul_add(self, a, b)
